@@ -210,6 +210,11 @@ func (c *UDPConn) WriteToUDP(p []byte, ua *net.UDPAddr) (int, error) {
 	}
 	faulty := !c.Foreign || !w.FaultOnlyHost
 	c.LastSent = nil
+	if !c.Foreign && !isWild(c.bindIP) && w.UDPWriteErrBound > 0 && simrt.S.Fault.Permille(w.UDPWriteErrBound) {
+		simrt.Fault("udp_write_error_listener")
+		c.WriteErrs++
+		return 0, opErr("write", "udp", ua, syscall.ENOBUFS)
+	}
 	if !c.Foreign && w.UDPWriteErr > 0 && simrt.S.Fault.Permille(w.UDPWriteErr) {
 		simrt.Fault("udp_write_error")
 		c.WriteErrs++
